@@ -40,8 +40,14 @@ def conflict_spec(depth, queue=False):
 
 def specs(tier):
     two = [(PR1, 'development/4.3'), (PR2, 'development/5.1')]
+    approve = [[AUTHOR, '@robot approve']]
     if tier == 'quick':
-        return [spec('c19-noq-D2-child-declined', 'D2', two[:1], depth=4,
+        return [# nothing is created by default; the author's approval
+                # triggers the integration branches; then decline
+                spec('c19-noq-D2-nobranches-approve', 'D2', two[:1], depth=4,
+                     int_prs=False, int_branches=False, comments=approve,
+                     pushes=0, eval_int_commits=False),
+                spec('c19-noq-D2-child-declined', 'D2', two[:1], depth=4,
                      decline_children=True, decline=False, pushes=0,
                      eval_int_commits=False),
                 conflict_spec(4),
@@ -62,7 +68,12 @@ def specs(tier):
                                  'bypass_build_status']})]
     opts = [[AUTHOR, '@robot create_pull_requests'],
             [AUTHOR, '@robot create_integration_branches']]
-    return [spec('c19-noq-D3-child-declined', 'D3', two, depth=6,
+    return [spec('c19-noq-D3-nobranches-approve', 'D3', two[:1], depth=6,
+                 int_prs=False, int_branches=False, comments=approve + opts),
+            spec('c19-q-D3-nobranches-approve', 'D3', two[:1], depth=6,
+                 queue=True, int_prs=False, int_branches=False,
+                 comments=approve),
+            spec('c19-noq-D3-child-declined', 'D3', two, depth=6,
                  decline_children=True),
             spec('c19-q-D3-child-declined', 'D3', two[:1], depth=6,
                  queue=True, decline_children=True),
